@@ -32,6 +32,17 @@ def one(rng, op, w, v, forge=False):
     p.tags.append("in-range" if inr else "out-of-range")
     if bits >= 255:
         p.tags.append("width>=255")
+    if forge and not inr and bits % 2 == 1 and op != "range":
+        # odd width, adversarial internal witnesses: lower := v (its accumulators := integer prefixes of v),
+        # top_bit := 0, recomposed := v  — every row but the range check of `lower` is then satisfied
+        k = (bits - 1) // 2
+        lower = nw_before
+        p.op("setw #%d %s" % (lower, hx(v)))
+        for j in range(k):
+            p.op("setw #%d %s" % (lower + 1 + j, hx((v >> (2 * (k - 1 - j))) % R)))
+        p.op("setw #%d 0" % (lower + 1 + k))
+        p.op("setw #%d %s" % (lower + 2 + k, hx(v)))
+        p.tags.append("forged-odd-split")
     if forge and not inr and bits >= 2 and bits % 2 == 0:
         # adversarial accumulators: integer prefixes of v itself (top digit >= 4), so that the last
         # accumulator equals v and the closing assert_equal holds
@@ -81,7 +92,8 @@ def entry_point_cases(rng):
 def run(ctx, broken):
     rng = SplitMix(ctx.seed * 1000003 + 9)
     r = ProgRunner(ctx, "C09")
-    r.run(cases(rng, ctx.tier))
+    from props.c05 import cancel_cases
+    r.run(cases(rng, ctx.tier) + cancel_cases(rng, ("range",), 1 if ctx.tier == "quick" else 8))
     # entry points agree (implementation-vs-property, reported separately)
     pairs = entry_point_cases(rng)
     lines = []
